@@ -110,7 +110,7 @@ def parseCellVal (s : String) : Option W.CellVal :=
   | ["dt2", y, mo, d, h, mi, s, f] => some (.datetime2 (n y) (n mo) (n d) (n h) (n mi) (n s) (n f))
   | ["ts2", s, f] => some (.timestamp2 (n s) (n f))
   | ["s", h] => some (.str ((hexToBytes h).getD []))
-  | ["raw", h] => some (.raw ((hexToBytes h).getD []))
+  | ["raw", h] => let b := (hexToBytes h).getD []; some (.raw b b)
   | _ => none
 
 def showCell (r : Res (Bytes × Nat)) : String := showRes (fun p => toHex p.1 ++ ":" ++ toString p.2) r
